@@ -23,7 +23,8 @@ extern "C" void __sanitizer_cov_trace_pc_guard_init(uint32_t *start, uint32_t *s
 extern "C" void __sanitizer_cov_trace_pc_guard(uint32_t *guard) {
     ++counter;
     uint32_t g = *guard;
-    if (g < seen.size() && !seen[g]) { seen[g] = 1; ++n_seen; }
+    if (g >= seen.size()) { if (g < (1u << 22)) seen.resize(g + 1024, 0); else return; }
+    if (!seen[g]) { seen[g] = 1; ++n_seen; }
     if (limit && counter > limit) { uint64_t c = counter; counter = 0; (void) c; sim::budget_exceeded(); }
 }
 namespace sim { uint32_t total_guards() { return n_guards; } }
